@@ -297,6 +297,8 @@ def confirm(prop, path, key):
 
 
 def replay(prop, path, machine=False):
+    from . import buildext
+    buildext.ensure()
     assert_tree()
     mod = load(prop)
     body = json.load(open(path))
